@@ -350,6 +350,9 @@ impl World {
     }
 
     pub fn note(&mut self, s: String) {
+        if crate::capture::trace_to_stderr() {
+            eprintln!("{s}");
+        }
         if self.trace.len() < 4000 {
             self.trace.push(s);
         }
